@@ -32,6 +32,12 @@ type DecoratorResolver struct {
 
 func (r *DecoratorResolver) ResolveIdent(file *ast.File, parent ast.Node, parentField string, id *ast.Ident) (string, error) {
 
+	if file == nil {
+		// an isolated node (Decorator.DecorateNode on something that is not a file) has no import
+		// declarations to resolve identifiers with
+		return "", fmt.Errorf("goast: can't resolve %s without the file it was parsed from", id.Name)
+	}
+
 	imports, err := r.imports(file)
 	if err != nil {
 		return "", err
